@@ -78,6 +78,16 @@ reg("C02", "exploration",
     "__ambiguous/__no_feature unit (read vs record) is accepted either way for multi-locus reads.",
     "property-based testing (Hypothesis) with independent recount oracle", "DESIGN.md section 4 C02")
 
+reg("C09", "exploration",
+    "Hypothesis-generated group assignments under all four --read_group modes, three counts formats, 1-3 threads and "
+    "16 interpreter hash seeds per run; the run must finish, every grouped cell equals a per-group recount with the "
+    "documented weights, groups sum to the ungrouped table, matrix and linear renderings carry identical triples, "
+    "grouped TPM columns rescale their own column.",
+    "Group of a read derived from docs/cmd.md; shares the C02 weighting model; two repaired defects listed as fixed in "
+    "known_findings.jsonl.",
+    "property-based testing (Hypothesis) with recount oracle + matrix/linear differential across hash seeds",
+    "DESIGN.md section 4 C09")
+
 NOT_YET = "check not built yet in this session (see DESIGN.md section 6a build order)"
 
 
